@@ -1015,3 +1015,293 @@ refoscore_unprotect_response(const refoscore_ctx_t *ctx, const refoscore_reqbind
   }
   return REFOSCORE_OK;
 }
+
+/* ------------------------------------------------------------------------------------------ */
+/* RFC 8613 Appendix C test vectors (transcribed from the RFC) and self-test                   */
+static const uint8_t V_SECRET[16] = {0x01, 0x02, 0x03, 0x04, 0x05, 0x06, 0x07, 0x08,
+                                     0x09, 0x0a, 0x0b, 0x0c, 0x0d, 0x0e, 0x0f, 0x10};
+static const uint8_t V_SALT[8] = {0x9e, 0x7c, 0xa9, 0x22, 0x23, 0x78, 0x63, 0x40};
+static const uint8_t V_IDCTX[8] = {0x37, 0xcb, 0xf3, 0x21, 0x00, 0x17, 0xa2, 0xd3};
+static const uint8_t V_ID00[1] = {0x00};
+static const uint8_t V_ID01[1] = {0x01};
+
+/* C.4 */
+static const uint8_t V4_UNPROT[] = {0x44, 0x01, 0x5d, 0x1f, 0x00, 0x00, 0x39, 0x74, 0x39, 0x6c, 0x6f,
+                                    0x63, 0x61, 0x6c, 0x68, 0x6f, 0x73, 0x74, 0x83, 0x74, 0x76, 0x31};
+static const uint8_t V4_PROT[] = {0x44, 0x02, 0x5d, 0x1f, 0x00, 0x00, 0x39, 0x74, 0x39, 0x6c, 0x6f, 0x63,
+                                  0x61, 0x6c, 0x68, 0x6f, 0x73, 0x74, 0x62, 0x09, 0x14, 0xff, 0x61, 0x2f,
+                                  0x10, 0x92, 0xf1, 0x77, 0x6f, 0x1c, 0x16, 0x68, 0xb3, 0x82, 0x5e};
+/* C.5 */
+static const uint8_t V5_UNPROT[] = {0x44, 0x01, 0x71, 0xc3, 0x00, 0x00, 0xb9, 0x32, 0x39, 0x6c, 0x6f,
+                                    0x63, 0x61, 0x6c, 0x68, 0x6f, 0x73, 0x74, 0x83, 0x74, 0x76, 0x31};
+static const uint8_t V5_PROT[] = {0x44, 0x02, 0x71, 0xc3, 0x00, 0x00, 0xb9, 0x32, 0x39, 0x6c, 0x6f, 0x63,
+                                  0x61, 0x6c, 0x68, 0x6f, 0x73, 0x74, 0x63, 0x09, 0x14, 0x00, 0xff, 0x4e,
+                                  0xd3, 0x39, 0xa5, 0xa3, 0x79, 0xb0, 0xb8, 0xbc, 0x73, 0x1f, 0xff, 0xb0};
+/* C.6 */
+static const uint8_t V6_UNPROT[] = {0x44, 0x01, 0x2f, 0x8e, 0xef, 0x9b, 0xbf, 0x7a, 0x39, 0x6c, 0x6f,
+                                    0x63, 0x61, 0x6c, 0x68, 0x6f, 0x73, 0x74, 0x83, 0x74, 0x76, 0x31};
+static const uint8_t V6_PROT[] = {0x44, 0x02, 0x2f, 0x8e, 0xef, 0x9b, 0xbf, 0x7a, 0x39, 0x6c, 0x6f, 0x63,
+                                  0x61, 0x6c, 0x68, 0x6f, 0x73, 0x74, 0x6b, 0x19, 0x14, 0x08, 0x37, 0xcb,
+                                  0xf3, 0x21, 0x00, 0x17, 0xa2, 0xd3, 0xff, 0x72, 0xcd, 0x72, 0x73, 0xfd,
+                                  0x33, 0x1a, 0xc4, 0x5c, 0xff, 0xbe, 0x55, 0xc3};
+/* C.7 */
+static const uint8_t V7_UNPROT[] = {0x64, 0x45, 0x5d, 0x1f, 0x00, 0x00, 0x39, 0x74, 0xff, 0x48, 0x65,
+                                    0x6c, 0x6c, 0x6f, 0x20, 0x57, 0x6f, 0x72, 0x6c, 0x64, 0x21};
+static const uint8_t V7_PROT[] = {0x64, 0x44, 0x5d, 0x1f, 0x00, 0x00, 0x39, 0x74, 0x90, 0xff, 0xdb,
+                                  0xaa, 0xd1, 0xe9, 0xa7, 0xe7, 0xb2, 0xa8, 0x13, 0xd3, 0xc3, 0x15,
+                                  0x24, 0x37, 0x83, 0x03, 0xcd, 0xaf, 0xae, 0x11, 0x91, 0x06};
+/* C.8 */
+static const uint8_t V8_PROT[] = {0x64, 0x44, 0x5d, 0x1f, 0x00, 0x00, 0x39, 0x74, 0x92, 0x01, 0x00, 0xff,
+                                  0x4d, 0x4c, 0x13, 0x66, 0x93, 0x84, 0xb6, 0x73, 0x54, 0xb2, 0xb6, 0x17,
+                                  0x5f, 0xf4, 0xb8, 0x65, 0x8c, 0x66, 0x6a, 0x6c, 0xf8, 0x8e};
+
+#define P_CLIENT_SALT {V_SECRET, 16, V_SALT, 8, NULL, 0, V_ID01, 1, NULL, 0, 0}
+#define P_SERVER_SALT {V_SECRET, 16, V_SALT, 8, V_ID01, 1, NULL, 0, NULL, 0, 0}
+#define P_CLIENT_NOSALT {V_SECRET, 16, NULL, 0, V_ID00, 1, V_ID01, 1, NULL, 0, 0}
+#define P_SERVER_NOSALT {V_SECRET, 16, NULL, 0, V_ID01, 1, V_ID00, 1, NULL, 0, 0}
+#define P_CLIENT_IDCTX {V_SECRET, 16, V_SALT, 8, NULL, 0, V_ID01, 1, V_IDCTX, 8, 1}
+#define P_SERVER_IDCTX {V_SECRET, 16, V_SALT, 8, V_ID01, 1, NULL, 0, V_IDCTX, 8, 1}
+
+static const refoscore_vector_t VECTORS[] = {
+    {"C.4", 0, P_CLIENT_SALT, 20, 0, -1, V4_UNPROT, sizeof V4_UNPROT, V4_PROT, sizeof V4_PROT},
+    {"C.5", 0, P_CLIENT_NOSALT, 20, 0, -1, V5_UNPROT, sizeof V5_UNPROT, V5_PROT, sizeof V5_PROT},
+    {"C.6", 0, P_CLIENT_IDCTX, 20, 0, -1, V6_UNPROT, sizeof V6_UNPROT, V6_PROT, sizeof V6_PROT},
+    {"C.7", 1, P_SERVER_SALT, 0, 0, 0, V7_UNPROT, sizeof V7_UNPROT, V7_PROT, sizeof V7_PROT},
+    {"C.8", 1, P_SERVER_SALT, 0, 1, 0, V7_UNPROT, sizeof V7_UNPROT, V8_PROT, sizeof V8_PROT},
+};
+
+int
+refoscore_vectors(const refoscore_vector_t **v) {
+  *v = VECTORS;
+  return (int)(sizeof VECTORS / sizeof VECTORS[0]);
+}
+
+static int st_checks;
+static int
+st_hex(uint8_t *out, const char *hex) {
+  int n = 0;
+  while (hex[0] && hex[1]) {
+    unsigned v;
+    sscanf(hex, "%2x", &v);
+    out[n++] = (uint8_t)v;
+    hex += 2;
+  }
+  return n;
+}
+static int
+st_eq(const char *vec, const char *what, const uint8_t *got, size_t gotlen, const char *want_hex) {
+  uint8_t want[256];
+  size_t wl = (size_t)st_hex(want, want_hex);
+  st_checks++;
+  if (wl == gotlen && !memcmp(want, got, wl))
+    return 1;
+  fprintf(stderr, "refoscore selftest: %s %s mismatch\n  want %s\n  got  ", vec, what, want_hex);
+  for (size_t i = 0; i < gotlen; i++)
+    fprintf(stderr, "%02x", got[i]);
+  fprintf(stderr, "\n");
+  return 0;
+}
+
+struct kd_vector {
+  const char *name;
+  refoscore_params_t p;
+  const char *info_skey, *info_rkey, *info_iv; /* NULL: not printed in the RFC for this vector */
+  const char *skey, *rkey, *civ, *snonce, *rnonce;
+};
+
+static const struct kd_vector KD[] = {
+    {"C.1.1", P_CLIENT_SALT, "8540f60a634b657910", "854101f60a634b657910", "8540f60a6249560d",
+     "f0910ed7295e6ad4b54fc793154302ff", "ffb14e093c94c9cac9471648b4f98710", "4622d4dd6d944168eefb54987c",
+     "4622d4dd6d944168eefb54987c", "4722d4dd6d944169eefb54987c"},
+    {"C.1.2", P_SERVER_SALT, "854101f60a634b657910", "8540f60a634b657910", "8540f60a6249560d",
+     "ffb14e093c94c9cac9471648b4f98710", "f0910ed7295e6ad4b54fc793154302ff", "4622d4dd6d944168eefb54987c",
+     "4722d4dd6d944169eefb54987c", "4622d4dd6d944168eefb54987c"},
+    {"C.2.1", P_CLIENT_NOSALT, "854100f60a634b657910", "854101f60a634b657910", "8540f60a6249560d",
+     "321b26943253c7ffb6003b0b64d74041", "e57b5635815177cd679ab4bcec9d7dda", "be35ae297d2dace910c52e99f9",
+     "bf35ae297d2dace910c52e99f9", "bf35ae297d2dace810c52e99f9"},
+    {"C.2.2", P_SERVER_NOSALT, "854101f60a634b657910", "854100f60a634b657910", "8540f60a6249560d",
+     "e57b5635815177cd679ab4bcec9d7dda", "321b26943253c7ffb6003b0b64d74041", "be35ae297d2dace910c52e99f9",
+     "bf35ae297d2dace810c52e99f9", "bf35ae297d2dace910c52e99f9"},
+    {"C.3.1", P_CLIENT_IDCTX, "85404837cbf3210017a2d30a634b657910", "8541014837cbf3210017a2d30a634b657910",
+     "85404837cbf3210017a2d30a6249560d", "af2a1300a5e95788b356336eeecd2b92", "e39a0c7c77b43f03b4b39ab9a268699f",
+     "2ca58fb85ff1b81c0b7181b85e", "2ca58fb85ff1b81c0b7181b85e", "2da58fb85ff1b81d0b7181b85e"},
+    {"C.3.2", P_SERVER_IDCTX, "8541014837cbf3210017a2d30a634b657910", "85404837cbf3210017a2d30a634b657910",
+     "85404837cbf3210017a2d30a6249560d", "e39a0c7c77b43f03b4b39ab9a268699f", "af2a1300a5e95788b356336eeecd2b92",
+     "2ca58fb85ff1b81c0b7181b85e", "2da58fb85ff1b81d0b7181b85e", "2ca58fb85ff1b81c0b7181b85e"},
+};
+
+/* intermediate values printed in C.4 - C.8 */
+struct msg_inter {
+  const char *ext_aad, *aad, *plaintext, *nonce, *optval, *ciphertext;
+};
+static const struct msg_inter INTER[] = {
+    {"8501810a40411440", "8368456e63727970743040488501810a40411440", "01b3747631", "4622d4dd6d944168eefb549868",
+     "0914", "612f1092f1776f1c1668b3825e"},
+    {"8501810a4100411440", "8368456e63727970743040498501810a4100411440", "01b3747631",
+     "bf35ae297d2dace910c52e99ed", "091400", "4ed339a5a379b0b8bc731fffb0"},
+    {"8501810a40411440", "8368456e63727970743040488501810a40411440", "01b3747631", "2ca58fb85ff1b81c0b7181b84a",
+     "19140837cbf3210017a2d3", "72cd7273fd331ac45cffbe55c3"},
+    {"8501810a40411440", "8368456e63727970743040488501810a40411440", "45ff48656c6c6f20576f726c6421",
+     "4622d4dd6d944168eefb549868", "", "dbaad1e9a7e7b2a813d3c31524378303cdafae119106"},
+    {"8501810a40411440", "8368456e63727970743040488501810a40411440", "45ff48656c6c6f20576f726c6421",
+     "4722d4dd6d944169eefb54987c", "0100", "4d4c13669384b67354b2b6175ff4b8658c666a6cf88e"},
+};
+
+static int
+st_keyderiv(const struct kd_vector *k) {
+  refoscore_ctx_t c;
+  uint8_t info[64], nonce[13], piv0[1] = {0};
+  int ok = 1, n;
+  if (refoscore_derive(&k->p, &c)) {
+    fprintf(stderr, "refoscore selftest: %s derive failed\n", k->name);
+    return 0;
+  }
+  n = refoscore_hkdf_info(c.sender_id, c.sender_id_len, c.id_context, c.id_context_len, c.has_id_context, 10, "Key",
+                          16, info, sizeof info);
+  ok &= n > 0 && st_eq(k->name, "info(sender key)", info, (size_t)n, k->info_skey);
+  n = refoscore_hkdf_info(c.recipient_id, c.recipient_id_len, c.id_context, c.id_context_len, c.has_id_context, 10,
+                          "Key", 16, info, sizeof info);
+  ok &= n > 0 && st_eq(k->name, "info(recipient key)", info, (size_t)n, k->info_rkey);
+  n = refoscore_hkdf_info(NULL, 0, c.id_context, c.id_context_len, c.has_id_context, 10, "IV", 13, info, sizeof info);
+  ok &= n > 0 && st_eq(k->name, "info(common iv)", info, (size_t)n, k->info_iv);
+  ok &= st_eq(k->name, "sender key", c.sender_key, 16, k->skey);
+  ok &= st_eq(k->name, "recipient key", c.recipient_key, 16, k->rkey);
+  ok &= st_eq(k->name, "common iv", c.common_iv, 13, k->civ);
+  /* the RFC's "sender nonce" / "recipient nonce" are the nonces for Partial IV 0 */
+  refoscore_nonce(c.sender_id, c.sender_id_len, piv0, 1, c.common_iv, nonce);
+  ok &= st_eq(k->name, "sender nonce", nonce, 13, k->snonce);
+  refoscore_nonce(c.recipient_id, c.recipient_id_len, piv0, 1, c.common_iv, nonce);
+  ok &= st_eq(k->name, "recipient nonce", nonce, 13, k->rnonce);
+  return ok;
+}
+
+static int
+st_message(int vi) {
+  const refoscore_vector_t *v = &VECTORS[vi];
+  const struct msg_inter *it = &INTER[vi];
+  refoscore_ctx_t c, peer;
+  refoscore_msg_t plain, prot, out, merged;
+  refoscore_reqbind_t bind, bind2;
+  refoscore_info_t *info = NULL;
+  static refoscore_info_t info_store;
+  uint8_t type, tok[8], buf[256], tmp[256];
+  uint16_t mid;
+  size_t tkl;
+  int ok = 1, n;
+  info = &info_store;
+  if (refoscore_derive(&v->params, &c))
+    return 0;
+  refoscore_mirror(&c, &peer);
+  if (refoscore_coap_decode(v->unprotected, v->unprotected_len, &plain, &type, &mid, tok, &tkl) ||
+      refoscore_coap_decode(v->protected_, v->protected_len, &prot, NULL, NULL, NULL, NULL)) {
+    fprintf(stderr, "refoscore selftest: %s datagram does not decode\n", v->name);
+    return 0;
+  }
+  /* the codec itself: re-encoding reproduces the RFC bytes */
+  n = refoscore_coap_encode(&plain, type, mid, tok, tkl, buf, sizeof buf);
+  st_checks++;
+  if (n != (int)v->unprotected_len || memcmp(buf, v->unprotected, (size_t)n)) {
+    fprintf(stderr, "refoscore selftest: %s codec round trip\n", v->name);
+    ok = 0;
+  }
+  if (!v->is_response) {
+    if (refoscore_protect_request(&c, &plain, v->piv, &out, &bind)) {
+      fprintf(stderr, "refoscore selftest: %s protect failed\n", v->name);
+      return 0;
+    }
+    n = refoscore_external_aad(c.sender_id, c.sender_id_len, bind.piv, bind.piv_len, tmp, sizeof tmp);
+    ok &= n > 0 && st_eq(v->name, "external_aad", tmp, (size_t)n, it->ext_aad);
+    n = refoscore_aad(c.sender_id, c.sender_id_len, bind.piv, bind.piv_len, tmp, sizeof tmp);
+    ok &= n > 0 && st_eq(v->name, "AAD", tmp, (size_t)n, it->aad);
+    ok &= st_eq(v->name, "nonce", bind.nonce, 13, it->nonce);
+  } else {
+    /* the request being answered, as the server sees it */
+    const refoscore_vector_t *rq = &VECTORS[v->request_vector];
+    refoscore_msg_t rq_outer, rq_merged;
+    if (refoscore_coap_decode(rq->protected_, rq->protected_len, &rq_outer, NULL, NULL, NULL, NULL) ||
+        refoscore_unprotect_request(&c, &rq_outer, &rq_merged, &bind, NULL)) {
+      fprintf(stderr, "refoscore selftest: %s cannot unprotect the request\n", v->name);
+      return 0;
+    }
+    if (refoscore_protect_response(&c, &bind, &plain, v->has_own_piv, v->piv, &out)) {
+      fprintf(stderr, "refoscore selftest: %s protect failed\n", v->name);
+      return 0;
+    }
+    n = refoscore_aad(bind.kid, bind.kid_len, bind.piv, bind.piv_len, tmp, sizeof tmp);
+    ok &= n > 0 && st_eq(v->name, "AAD", tmp, (size_t)n, it->aad);
+    if (v->has_own_piv) {
+      uint8_t pv[5], nn[13];
+      int pl = refoscore_piv_encode(v->piv, pv);
+      refoscore_nonce(c.sender_id, c.sender_id_len, pv, (size_t)pl, c.common_iv, nn);
+      ok &= st_eq(v->name, "nonce", nn, 13, it->nonce);
+    } else {
+      ok &= st_eq(v->name, "nonce", bind.nonce, 13, it->nonce);
+    }
+  }
+  int oi = refoscore_msg_find(&out, REFOSCORE_OPT_OSCORE);
+  ok &= oi >= 0 && st_eq(v->name, "OSCORE option value", refoscore_opt_val(&out, oi), out.opts[oi].len, it->optval);
+  ok &= st_eq(v->name, "ciphertext", refoscore_payload(&out), out.payload_len, it->ciphertext);
+  n = refoscore_coap_encode(&out, type, mid, tok, tkl, buf, sizeof buf);
+  st_checks++;
+  if (n != (int)v->protected_len || memcmp(buf, v->protected_, (size_t)n)) {
+    fprintf(stderr, "refoscore selftest: %s protected datagram differs from the RFC\n", v->name);
+    ok = 0;
+  }
+  /* reverse direction at the peer */
+  int r;
+  if (!v->is_response) {
+    r = refoscore_unprotect_request(&peer, &prot, &merged, &bind2, info);
+  } else {
+    /* the client's binding: from protecting the request vector */
+    const refoscore_vector_t *rq = &VECTORS[v->request_vector];
+    refoscore_msg_t rq_plain, rq_out;
+    refoscore_ctx_t cc;
+    refoscore_derive(&rq->params, &cc);
+    refoscore_coap_decode(rq->unprotected, rq->unprotected_len, &rq_plain, NULL, NULL, NULL, NULL);
+    refoscore_protect_request(&cc, &rq_plain, rq->piv, &rq_out, &bind2);
+    r = refoscore_unprotect_response(&peer, &bind2, &prot, &merged, info);
+  }
+  st_checks++;
+  if (r) {
+    fprintf(stderr, "refoscore selftest: %s unprotect: %s\n", v->name, refoscore_strerror(r));
+    return 0;
+  }
+  {
+    uint8_t pt[300];
+    pt[0] = info->inner.code;
+    n = refoscore_coap_encode_body(&info->inner, pt + 1, sizeof pt - 1);
+    ok &= n >= 0 && st_eq(v->name, "plaintext", pt, (size_t)n + 1, it->plaintext);
+  }
+  st_checks++;
+  if (!refoscore_msg_equal(&merged, &plain)) {
+    char a[300], b[300];
+    fprintf(stderr, "refoscore selftest: %s unprotected message differs\n  want %s\n  got  %s\n", v->name,
+            refoscore_msg_str(&plain, a, sizeof a), refoscore_msg_str(&merged, b, sizeof b));
+    ok = 0;
+  }
+  /* a flipped tag bit must be refused */
+  prot.store[prot.payload_off + prot.payload_len - 1] ^= 1;
+  r = v->is_response ? refoscore_unprotect_response(&peer, &bind2, &prot, &merged, NULL)
+                     : refoscore_unprotect_request(&peer, &prot, &merged, NULL, NULL);
+  st_checks++;
+  if (r != REFOSCORE_E_AEAD) {
+    fprintf(stderr, "refoscore selftest: %s forged tag not refused (%s)\n", v->name, refoscore_strerror(r));
+    ok = 0;
+  }
+  return ok;
+}
+
+int
+refoscore_selftest(int *checks) {
+  int done = 0;
+  st_checks = 0;
+  for (size_t i = 0; i < sizeof KD / sizeof KD[0]; i++, done++)
+    if (!st_keyderiv(&KD[i]))
+      return -(done + 1);
+  for (int i = 0; i < (int)(sizeof VECTORS / sizeof VECTORS[0]); i++, done++)
+    if (!st_message(i))
+      return -(done + 1);
+  if (checks)
+    *checks = st_checks;
+  return done;
+}
